@@ -324,6 +324,10 @@ func Gen(seed uint64, faulty bool) *Workload {
 	if r.Chance(0.5) {
 		w.Buggify = append(w.Buggify, "short-reads")
 	}
+	if r.Chance(0.25) {
+		// the compile runs at debug log level (-v): lazily formatted debug messages are evaluated
+		w.Buggify = append(w.Buggify, "debug-log")
+	}
 	if faulty {
 		planFaults(r, w)
 		for _, f := range w.Files {
@@ -333,6 +337,17 @@ func Gen(seed uint64, faulty bool) *Workload {
 		}
 	}
 	return w
+}
+
+// plainWord: letters, digits and underscores only (what a statement's free text can hold
+// without meaning something else to the lexer).
+func plainWord(x string) bool {
+	for _, c := range x {
+		if !(c == '_' || c >= '0' && c <= '9' || c >= 'a' && c <= 'z' || c >= 'A' && c <= 'Z') {
+			return false
+		}
+	}
+	return x != ""
 }
 
 func foreignAs(i int) string { return fmt.Sprintf("Foreign%d", i) }
@@ -573,9 +588,25 @@ paths:
 		fmt.Fprintf(&b, "importer%d:\n    E:\n        ...\n\n", f.ID)
 	}
 	if f.Layout&16 != 0 {
-		// after the first application import is an ordinary word
-		fmt.Fprintf(&b, "F%d:\n    !type T%d:\n        x <: int\n\nShared:\n    E%d:\n        import the records\n        ...\n\nimport Gateway%d:\n    E:\n        ...\n",
-			f.ID, f.ID, f.ID, f.ID)
+		// after the first application import is an ordinary word: a statement that reads exactly
+		// like an import line of this model (the root's first, or this file's own) is still a
+		// statement
+		stmt := "import the records"
+		for _, g := range []*FileSpec{w.Files[0], f} {
+			// ... or like the beginning of one: "import d1" next to the import line "import d1/f3"
+			for _, im := range g.Imports {
+				first, _, _ := strings.Cut(im.Spell, "/")
+				if im.As == "" && plainWord(first) {
+					stmt = "import " + first
+					break
+				}
+			}
+			if stmt != "import the records" {
+				break
+			}
+		}
+		fmt.Fprintf(&b, "F%d:\n    !type T%d:\n        x <: int\n\nShared:\n    E%d:\n        %s\n        ...\n\nimport Gateway%d:\n    E:\n        ...\n",
+			f.ID, f.ID, f.ID, stmt, f.ID)
 		return b.String()
 	}
 	fmt.Fprintf(&b, "F%d:\n    !type T%d:\n        x <: int\n\nShared:\n    E%d:\n        ...\n", f.ID, f.ID, f.ID)
